@@ -270,16 +270,19 @@ class Canon:
     (rand_uuid) that were not among the inputs, and the summed (inner) labels of a network --
     the name of a summed label is not part of the labelled content of the network."""
 
-    def __init__(self, obj, known):
+    def __init__(self, obj, known, keep_out=()):
         self.root = normalise(obj)
         self.known = set(known)
+        # labels that were open (outer) on the inputs: they stay open in the contracted value of a result even where
+        # the result carries them twice (e.g. an output label shared with a diagonal tensor after diagonal_reduce)
+        self.keep_out = set(keep_out)
         rp = rand_prefix()
         tens = list(_all_tens(self.root))
         inner = _inner_of(self.root)
         fresh = {}
         for ti in tens:
             for ix, d in zip(ti["inds"], ti["data"].shape if ti["data"].ndim == len(ti["inds"]) else (0,) * len(ti["inds"])):
-                if (ix not in self.known and rp in ix) or ix in inner:
+                if (ix not in self.known and rp in ix) or (ix in inner and ix not in self.keep_out):
                     fresh[ix] = d
         # colour refinement of the free labels
         col = {ix: (d,) for ix, d in fresh.items()}
@@ -336,7 +339,7 @@ class Canon:
                 for ti in node.tens:
                     for i, d in zip(ti["inds"], ti["data"].shape):
                         sizes[i] = d
-                out = sorted("%s:%d" % (self.cname(i), sizes[i]) for i in _outer(node.tens))
+                out = sorted("%s:%d" % (self.cname(i), sizes[i]) for i in _outer(node.tens, self.keep_out))
                 ts = ["outer=" + ",".join(out), "dtypes=" + ",".join(sorted({ti["data"].dtype.name for ti in node.tens}))]
                 if weak == 1:
                     ts.append("tags=" + ";".join(sorted(",".join(ti["tags"]) for ti in node.tens)))
@@ -392,15 +395,15 @@ def _dense(node_tens, exp, out):
     return val * (10.0 ** exp)
 
 
-def _outer(node_tens):
+def _outer(node_tens, keep=()):
     cnt = {}
     for ti in node_tens:
         for i in ti["inds"]:
             cnt[i] = cnt.get(i, 0) + 1
-    return [i for i, c in cnt.items() if c == 1]
+    return [i for i, c in cnt.items() if c == 1 or i in keep]
 
 
-def _node_dist(a, b, amap, tol, dense):
+def _node_dist(a, b, amap, tol, dense, keep=()):
     if a.kind != b.kind:
         return 999999
     if a.kind == "num":
@@ -408,15 +411,15 @@ def _node_dist(a, b, amap, tol, dense):
     if a.kind in ("seq", "map"):
         if len(a.items) != len(b.items):
             return 999999
-        return max([0] + [_node_dist(x, y, amap, tol, dense) for x, y in zip(a.items, b.items)])
+        return max([0] + [_node_dist(x, y, amap, tol, dense, keep) for x, y in zip(a.items, b.items)])
     if a.kind == "T":
         return _tdist(a.tens[0], b.tens[0], amap, tol)
     if a.kind == "N":
         if len(a.tens) != len(b.tens) and not dense:
             return 999999
         if dense:
-            oa = _outer(a.tens)
-            ob = _outer(b.tens)
+            oa = _outer(a.tens, keep)
+            ob = _outer(b.tens, keep)
             oam = [amap.get(i, i) for i in oa]
             if sorted(oam) != sorted(ob) or len(labels := set(i for t in a.tens for i in t["inds"])) > 40:
                 return 999999
@@ -450,7 +453,7 @@ def compare(ca, cb, tol=1e-8, dense=False, cap=2000):
     cla_, clb_ = ca.classes, cb.classes
     if dense:
         # summed labels do not matter for the contracted value: only free labels that stay open
-        ia, ib = _inner_of(ca.root), _inner_of(cb.root)
+        ia, ib = _inner_of(ca.root) - ca.keep_out, _inner_of(cb.root) - cb.keep_out
         cla_ = [c2 for c2 in ([i for i in c if i not in ia] for c in ca.classes) if c2]
         clb_ = [c2 for c2 in ([i for i in c if i not in ib] for c in cb.classes) if c2]
     if [len(c) for c in cla_] != [len(c) for c in clb_]:
@@ -463,7 +466,7 @@ def compare(ca, cb, tol=1e-8, dense=False, cap=2000):
         for cla, clb in zip(cla_, combo):
             amap.update(dict(zip(cla, clb)))
         try:
-            d = _node_dist(ca.root, cb.root, amap, tol, dense)
+            d = _node_dist(ca.root, cb.root, amap, tol, dense, ca.keep_out | cb.keep_out)
         except Exception:  # noqa
             d = 999996
         best = min(best, d)
